@@ -38,6 +38,7 @@ type Op struct {
 	Blind []int64    `json:"blind,omitempty"` // level, ante, dealer, sb, bb
 	Gc    int        `json:"gc,omitempty"`
 	Who   string     `json:"who,omitempty"` // symbolic caller for "act": cur, other, out, stranger (resolved at run time)
+	Then  []Op       `json:"then,omitempty"` // "bgreserve": what the driver does while the background call is parked inside the engine lock
 }
 
 // Inj: ops to run when the hand reaches a phase ("prefinish","ready1","ready2","ante","blinds","turn<k>","settled")
@@ -616,6 +617,25 @@ func (d *TD) exec(o Op) string {
 	case "release":
 		d.rec.Emit("call:ReleaseTable", a, "", d.te, nil, nil, false)
 		return d.call("ReleaseTable", &a, func() error { return te.ReleaseTable() })
+	case "bgreserve":
+		// a reservation made from another goroutine is parked inside the engine lock (hook members.add.mid); the driver
+		// meanwhile does o.Then (e.g. lets the gate fire, which then waits for the lock, and closes the table)
+		d.arm("members.add.mid", o.Then)
+		a.ID, a.Seat, a.Chips, a.Note = o.ID, o.Seat, o.Chips, "background"
+		pre := d.rec.Project(d.te, nil)
+		go func() {
+			err := te.PlayerReserve(pt.JoinPlayer{PlayerID: o.ID, RedeemChips: o.Chips, Seat: o.Seat})
+			d.rec.Emit("ret:PlayerReserve", a, errNameT(err), d.te, nil, &pre, false)
+		}()
+		for i := 0; i < 400; i++ {
+			if d.takeParked() != "" {
+				break
+			}
+			time.Sleep(500 * time.Microsecond)
+		}
+		d.settle()
+		d.rec.Emit("q", mkArgs(), "", d.te, nil, nil, false)
+		return "ok"
 	case "finishall":
 		d.hmu.Lock()
 		ids := []string{}
